@@ -43,6 +43,28 @@ impl Endpoint {
         Ok(endpoint)
     }
 
+    /// Verification hook: run over a harness-provided datagram socket instead of an OS socket.
+    #[cfg(bmwill_anemo_verif)]
+    pub fn verif_new_with_abstract_socket(
+        config: EndpointConfig,
+        socket: Arc<dyn quinn::AsyncUdpSocket>,
+    ) -> Result<Self> {
+        let local_addr = socket.local_addr()?.pipe(RwLock::new);
+        let server_config = config.server_config().clone();
+        let endpoint = quinn::Endpoint::new_with_abstract_socket(
+            config.quinn_endpoint_config(),
+            Some(server_config),
+            socket,
+            Arc::new(quinn::TokioRuntime),
+        )?;
+
+        Ok(Self {
+            inner: endpoint,
+            local_addr,
+            config,
+        })
+    }
+
     #[cfg(test)]
     fn new_with_address<A: Into<crate::types::Address>>(
         config: EndpointConfig,
